@@ -910,6 +910,126 @@ theorem cntGe_zero_eq_length (l : Votes) (h : ∀ e ∈ l, 0 ≤ e.2) : cntGe l 
   intro e he
   simpa using h e he
 
+/-! ### `get_n_best(·, 1)`: the maximum, or the tie of all maxima -/
+
+theorem cntGe_eq_cntGt_add_level (votes : Votes) (t : Rat) :
+    cntGe votes t = cntGt votes t + (level votes t).length := by
+  unfold cntGe cntGt level
+  rw [List.length_map]
+  induction votes with
+  | nil => rfl
+  | cons x xs ih =>
+    simp only [List.filter_cons]
+    rcases lt_trichotomy x.2 t with h | h | h
+    · have h1 : ¬ t ≤ x.2 := not_le.mpr h
+      have h2 : ¬ t < x.2 := fun hh => h1 (le_of_lt hh)
+      have h3 : ¬ x.2 = t := ne_of_lt h
+      simp only [h1, h2, h3, decide_false, Bool.false_eq_true, if_false]
+      exact ih
+    · simp only [h, le_refl, lt_irrefl, decide_true, decide_false, Bool.false_eq_true, if_true, if_false,
+        List.length_cons]
+      omega
+    · have h1 : t ≤ x.2 := le_of_lt h
+      have h3 : ¬ x.2 = t := ne_of_gt h
+      simp only [h1, h, h3, decide_true, decide_false, Bool.false_eq_true, if_true, if_false, List.length_cons]
+      omega
+
+theorem getNBest_one (votes : Votes) (hne : votes ≠ []) :
+    ∃ t, (∃ e ∈ votes, e.2 = t) ∧ (∀ e ∈ votes, e.2 ≤ t) ∧
+      getNBest votes 1 =
+        if (level votes t).length = 1 then (level votes t).map Slot.cand else [Slot.tie (level votes t)] := by
+  have hlen : 1 ≤ votes.length := by
+    cases votes with
+    | nil => exact absurd rfl hne
+    | cons a b => simp
+  obtain ⟨t, ht⟩ := nth_exists votes 1 (le_refl 1) hlen
+  have hgt0 : cntGt votes t = 0 := by have := ht.2.1; omega
+  have hall : ∀ e ∈ votes, e.2 ≤ t := by
+    intro e he
+    by_contra hcon
+    have hmem : e ∈ votes.filter (fun p => decide (t < p.2)) := by
+      rw [List.mem_filter]; exact ⟨he, by simpa using hcon⟩
+    have : 0 < cntGt votes t := List.length_pos_of_mem hmem
+    omega
+  have habove : aboveSorted votes t = [] := by
+    apply List.eq_nil_of_length_eq_zero
+    unfold aboveSorted
+    rw [sortDesc_filter_length]; exact hgt0
+  have hsplit := cntGe_eq_cntGt_add_level votes t
+  refine ⟨t, ht.1, hall, ?_⟩
+  rcases Nat.lt_or_ge 1 votes.length with hlt | hge
+  · rcases Nat.lt_or_ge 1 (cntGe votes t) with hno | hfit
+    · rw [C09.getNBest_tie votes 1 (le_refl 1) hlt t ht hno, habove, hgt0, if_neg (by omega)]
+      rfl
+    · have h1 := ht.2.2
+      rw [C09.getNBest_fits votes 1 (le_refl 1) hlt t ht hfit, habove, if_pos (by omega)]
+      rfl
+  · have h1 : votes.length = 1 := by omega
+    match votes, h1 with
+    | [e], _ =>
+      have het : e.2 = t := by
+        obtain ⟨e', he', h'⟩ := ht.1
+        simp only [List.mem_singleton] at he'
+        rw [← he']; exact h'
+      have hl : level [e] t = [e.1] := by simp [level, het]
+      rw [hl]
+      simp [getNBest, sortDesc, insertDesc]
+
+theorem mapM_candOfKey_some (ks : List Key) : ∀ cs, ks.mapM candOfKey = some cs → ks = cs.map Key.cand := by
+  induction ks with
+  | nil => intro cs h; simp at h; subst h; rfl
+  | cons k ks ih =>
+    intro cs h
+    rw [List.mapM_cons] at h
+    cases hk : candOfKey k with
+    | none => rw [hk] at h; simp at h
+    | some c =>
+      rw [hk] at h
+      cases hks : ks.mapM candOfKey with
+      | none => rw [hks] at h; simp at h
+      | some cs' =>
+        rw [hks] at h
+        simp at h
+        subst h
+        have : k = Key.cand c := by
+          cases k with
+          | cand c' => simp [candOfKey] at hk; rw [hk]
+          | tie T => simp [candOfKey] at hk
+        rw [this, ih cs' hks]; rfl
+
+/-- margin by which the holder of an entry of `selected` cleared its last quota: `v − q·(seats + prev)` -/
+def margin (votes : Votes) (q : Rat) (prev : IMap) (e : Key × Int) : Rat :=
+  votesOfKey votes e.1 - q * (((e.2 + prevOfKey prev e.1 : Int)) : Rat)
+
+theorem mem_subRemainders {votes : Votes} {q : Rat} {prev : IMap} {sel : Sel} {x : Cand × Rat} :
+    x ∈ subRemainders votes q prev sel ↔ ∃ e, sel[x.1]? = some e ∧ x.2 = - margin votes q prev e := by
+  unfold subRemainders margin
+  constructor
+  · intro h
+    obtain ⟨ip, hip, rfl⟩ := List.mem_map.mp h
+    obtain ⟨i, hi, hie⟩ := List.mem_iff_getElem.mp hip
+    rw [List.getElem_zip] at hie
+    simp only [List.length_zip, List.length_range, Nat.min_self] at hi
+    refine ⟨ip.2, ?_, rfl⟩
+    have h1 : ip.1 = i := by rw [← hie]; simp
+    have h2 : ip.2 = sel[i] := by rw [← hie]
+    simp only
+    rw [h1, h2]; exact List.getElem?_eq_getElem hi
+  · rintro ⟨e, he, hx⟩
+    obtain ⟨hi, hie⟩ := List.getElem?_eq_some_iff.mp he
+    refine List.mem_map.mpr ⟨(x.1, e), ?_, ?_⟩
+    · refine List.mem_iff_getElem.mpr ⟨x.1, by simpa using hi, ?_⟩
+      rw [List.getElem_zip]; simp [hie]
+    · simp only; rw [← hx]
+
+theorem subRemainders_ne_nil {votes : Votes} {q : Rat} {prev : IMap} {sel : Sel} (h : sel ≠ []) :
+    subRemainders votes q prev sel ≠ [] := by
+  intro hn
+  have : (subRemainders votes q prev sel).length = sel.length := by
+    unfold subRemainders; simp
+  rw [hn] at this
+  exact h (List.eq_nil_of_length_eq_zero this.symm)
+
 /-! ### sums: exact quotas fill the house -/
 
 theorem sumVals_eq (votes : Votes) : sumVals votes = (votes.map (·.2)).sum := by
@@ -1030,6 +1150,166 @@ theorem totalAwarded_plain_aux {q : Rat} (hq : 0 < q) (ae : Bool) (votes : Votes
   apply List.map_congr_left
   intro p hp
   exact wholeAward_nil hq ae p (hv p hp)
+
+/-! ### the fuel of the overshoot recursion is never exhausted -/
+
+theorem wholeStep_err {q : Rat} {ae : Bool} {n : Int} {prev maxS : IMap} {st : WState} {p : Cand × Rat} {e : Err}
+    (h : wholeStep q ae n prev maxS st p = .error e) : e = zeroDiv := by
+  unfold wholeStep at h
+  simp only at h
+  split at h
+  · split at h
+    · injection h with h; exact h.symm
+    · split at h
+      · split at h <;> cases h
+      · cases h
+  · cases h
+
+theorem wholeLoop_err {q : Rat} {ae : Bool} {n : Int} {prev maxS : IMap} {e : Err} (votes : Votes) :
+    ∀ st, wholeLoop q ae n prev maxS st votes = .error e → e = zeroDiv := by
+  induction votes with
+  | nil => intro st h; cases h
+  | cons p ps ih =>
+    intro st h
+    unfold wholeLoop at h
+    split at h
+    · exact ih _ h
+    · rename_i e' he
+      injection h with h
+      rw [← h]; exact wholeStep_err he
+
+/-- invariant of the loop: a non-zero overshoot count comes with an overshot party of the election -/
+def OvershotInv (K : List Cand) (st : WState) : Prop := st.nOvershot ≠ 0 → ∃ c ∈ st.overshot, c ∈ K
+
+theorem wholeStep_inv {q : Rat} {ae : Bool} {n : Int} {prev maxS : IMap} {st st' : WState} {p : Cand × Rat}
+    (K : List Cand) (hp : p.1 ∈ K) (hi : OvershotInv K st)
+    (h : wholeStep q ae n prev maxS st p = .ok st') : OvershotInv K st' := by
+  unfold wholeStep at h
+  simp only at h
+  split at h
+  · split at h
+    · cases h
+    · split at h
+      · split at h
+        · injection h with h; subst h
+          intro _
+          exact ⟨p.1, by simp, hp⟩
+        · injection h with h; subst h; exact hi
+      · injection h with h; subst h; exact hi
+  · injection h with h; subst h; exact hi
+
+theorem wholeLoop_inv {q : Rat} {ae : Bool} {n : Int} {prev maxS : IMap} (K : List Cand) (votes : Votes) :
+    ∀ st st', (∀ p ∈ votes, p.1 ∈ K) → OvershotInv K st →
+      wholeLoop q ae n prev maxS st votes = .ok st' → OvershotInv K st' := by
+  induction votes with
+  | nil => intro st st' _ hi h; unfold wholeLoop at h; injection h with h; subst h; exact hi
+  | cons p ps ih =>
+    intro st st' hK hi h
+    unfold wholeLoop at h
+    split at h
+    · rename_i st1 h1
+      exact ih st1 st' (fun x hx => hK x (List.mem_cons_of_mem _ hx))
+        (wholeStep_inv K (hK p List.mem_cons_self) hi h1) h
+    · cases h
+
+theorem fuelErr_ne : fuelErr ≠ zeroDiv ∧ fuelErr ≠ indexErr ∧ fuelErr ≠ nestedTie ∧ fuelErr ≠ attrErr ∧
+    fuelErr ≠ Err.votingSystemError := by decide
+
+theorem subtractStep_err {votes : Votes} {q : Rat} {prev : IMap} {sel : Sel} {e : Err}
+    (h : subtractStep votes q prev sel = .error e) : e = indexErr ∨ e = nestedTie := by
+  unfold subtractStep at h
+  split at h
+  · injection h with h; exact Or.inl h.symm
+  · cases h
+  · simp only at h
+    split at h
+    · injection h with h; exact Or.inr h.symm
+    · split at h <;> cases h
+
+theorem subtractLoop_err {votes : Votes} {q : Rat} {prev : IMap} {e : Err} (k : Nat) :
+    ∀ sel, subtractLoop votes q prev k sel = .error e → e = indexErr ∨ e = nestedTie := by
+  induction k with
+  | zero => intro sel h; cases h
+  | succ k ih =>
+    intro sel h
+    unfold subtractLoop at h
+    split at h
+    · exact ih _ h
+    · rename_i e' he
+      injection h with h
+      rw [← h]; exact subtractStep_err he
+
+theorem applyPolicy_no_fuel (cfg : Cfg) (votes : Votes) (n : Nat) (prev : IMap) (sel : Sel) :
+    applyPolicy cfg votes n prev sel ≠ .error fuelErr := by
+  unfold applyPolicy
+  simp only
+  split
+  · cases cfg.onOver with
+    | ignore => simp
+    | error =>
+      simp only
+      split
+      · intro h; injection h with h; exact fuelErr_ne.2.2.2.2 h.symm
+      · intro h; injection h with h; exact fuelErr_ne.2.2.2.1 h.symm
+    | subtract =>
+      simp only [subtractOveraward]
+      intro h
+      rcases subtractLoop_err _ _ h with h' | h'
+      · exact fuelErr_ne.2.1 h'
+      · exact fuelErr_ne.2.2.1 h'
+  · simp
+
+theorem qdBody_no_fuel (cfg : Cfg) (recur : Votes → Nat → IMap → IMap → Except Err Sel)
+    (votes : Votes) (n : Nat) (prev maxS : IMap)
+    (hrec : ∀ votes' n' prev' maxS', votes'.length < votes.length → recur votes' n' prev' maxS' ≠ .error fuelErr) :
+    qdBody cfg recur votes n prev maxS ≠ .error fuelErr := by
+  unfold qdBody
+  simp only
+  split
+  · rename_i e he
+    intro h; injection h with h
+    have := wholeLoop_err votes _ he
+    rw [h] at this
+    exact fuelErr_ne.1 this
+  · rename_i st hst
+    split
+    · rename_i hno
+      have hinv := wholeLoop_inv (votes.map (·.1)) votes ⟨[], 0, []⟩ st
+        (fun p hp => List.mem_map.mpr ⟨p, hp, rfl⟩) (fun h => absurd rfl h) hst
+      obtain ⟨c, hc, hcK⟩ := hinv hno
+      obtain ⟨p, hp, hpc⟩ := List.mem_map.mp hcK
+      have hlt : (votes.filter (fun p => !st.overshot.contains p.1)).length < votes.length := by
+        apply List.length_filter_lt_length_iff_exists.mpr
+        refine ⟨p, hp, ?_⟩
+        simp only [Bool.not_eq_true, Bool.not_eq_false']
+        rw [hpc]
+        exact List.contains_iff_mem.mpr hc
+      have := hrec _ st.nOvershot.toNat
+        (votes.map (fun p => (p.1, getK st.selected (.cand p.1) 0 + getI prev p.1 0))) maxS hlt
+      split
+      · rename_i e he
+        intro h; injection h with h
+        rw [h] at he
+        exact this he
+      · exact applyPolicy_no_fuel _ _ _ _ _
+    · exact applyPolicy_no_fuel _ _ _ _ _
+
+theorem qdEval_no_fuel (cfg : Cfg) : ∀ (fuel : Nat) (votes : Votes) (n : Nat) (prev maxS : IMap),
+    votes.length ≤ fuel → qdEval cfg fuel votes n prev maxS ≠ .error fuelErr := by
+  intro fuel
+  induction fuel with
+  | zero =>
+    intro votes n prev maxS hl
+    show qdBody cfg _ votes n prev maxS ≠ _
+    apply qdBody_no_fuel
+    intro votes' _ _ _ hlt
+    omega
+  | succ k ih =>
+    intro votes n prev maxS hl
+    show qdBody cfg (qdEval cfg k) votes n prev maxS ≠ _
+    apply qdBody_no_fuel
+    intro votes' n' prev' maxS' hlt
+    exact ih votes' n' prev' maxS' (by omega)
 
 end QD
 end VL
